@@ -202,6 +202,13 @@ def _substitute_original_strings(original_source: str, new_source: str) -> str:
             most_common_original_formatting = most_common_original_formatting.lstrip("brf")
             most_common_original_formatting = prefix + most_common_original_formatting
 
+            # Without e.g. its r prefix, the original formatting may denote another string.
+            if not (
+                core.is_valid_python(most_common_original_formatting)
+                and core.match_template(core.parse(most_common_original_formatting), template)
+            ):
+                continue
+
         replacements[node] = most_common_original_formatting
 
     return _replace_nodes(new_source, replacements)
